@@ -1,5 +1,5 @@
 """E-lib: C04 C05 C06 C18 C20 on TLC-generated libraries and edit histories."""
-import json, os, concurrent.futures
+import json, os, re, concurrent.futures
 from common import *
 
 PROPS = ("C04", "C05", "C06", "C18", "C20")
@@ -63,15 +63,21 @@ def run_lib(pid, tier):
         with concurrent.futures.ThreadPoolExecutor(max_workers=5) as ex:
             for i, vs, st in ex.map(judge, range(shards)):
                 res.cov["trace_states"] = res.cov.get("trace_states", 0) + st
+                byc = None
                 for v in vs:
                     mine = v["bad"].get(pid, [])
                     crash = v["bad"].get("C03", [])
                     if mine or (crash and pid == "C04"):
-                        ev = None
-                        for line in open(evs[i]):
-                            if '"case":"%s"' % v["case"] in line:
-                                ev = json.loads(line)
-                                break
+                        if len(res.violations) >= 60:
+                            res.violation("(not saved)", "%s: %s" % (v["case"], json.dumps(mine or crash)[:200]))
+                            continue
+                        if byc is None:
+                            byc = {}
+                            for line in open(evs[i]):
+                                m = re.search(r'"case":"([^"]*)"', line)
+                                if m:
+                                    byc.setdefault(m.group(1), line)
+                        ev = json.loads(byc[v["case"]]) if v["case"] in byc else None
                         small = {k: ev.get(k) for k in ("case", "texts", "steps", "last_key", "res")} if ev else None
                         p = save_replay(work, "%s_%s" % (pid, str(v["case"]).replace(":", "_")),
                                         {"property": pid, "case": v["case"], "reasons": mine or crash, "observed": small})
@@ -181,6 +187,9 @@ def arena_part(res, work, tier):
                 if v["hist"] in reported:
                     continue
                 reported.add(v["hist"])
+                if len(reported) > 40:
+                    res.violation("(not saved)", "arena after %s step %d of history %d differs from Arena.tla" % (v["ev"], v["step"], v["hist"]))
+                    continue
                 ops = [json.loads(l) for l in open(evs[i]) if '"hist":%d,' % v["hist"] in l]
                 small = [{k: e.get(k) for k in ("ev", "k", "md")} for e in ops]
                 p = save_replay(work, "C20_arena_%d" % v["hist"], {"property": "C20", "reasons": v["bad"][:6], "step": v["step"], "calls": small})
@@ -250,13 +259,17 @@ def check_c17(tier):
     total = 0
     with concurrent.futures.ThreadPoolExecutor(max_workers=5) as ex:
         for i, vs in ex.map(judge, range(shards)):
+            byc = None
             for v in vs:
-                ev = None
-                for line in open(evs[i]):
-                    e = json.loads(line)
-                    if e["case"] == v["case"]:
-                        ev = e
-                        break
+                if len(res.violations) >= 60:
+                    res.violation("(not saved)", "case %s depth %d: %s" % (v["case"], v["depth"], json.dumps(v["bad"])[:200]))
+                    continue
+                if byc is None:
+                    byc = {}
+                    for line in open(evs[i]):
+                        e = json.loads(line)
+                        byc.setdefault(e.get("case"), e)
+                ev = byc.get(v["case"])
                 p = save_replay(work, "C17_case%d" % v["case"], {"property": pid, "reasons": v["bad"][:10], "event": ev})
                 res.violation(p, "depth %d: %s" % (v["depth"], json.dumps(v["bad"])[:300]))
     for i in range(shards):
@@ -280,7 +293,7 @@ def check_c16(tier):
     res = Result(pid, tier, "model_checking")
     vh = build_harness()
     rnd = random.Random(seed())
-    libs = [(rnd.randrange(1, 10**6), n) for n in ((60, 150, 300) if tier == "quick" else (50, 80, 120, 150, 200, 250, 300, 350, 400, 120, 220, 320))]
+    libs = [(rnd.randrange(1, 10**6), n) for n in ((60, 150, 300, 800) if tier == "quick" else (50, 80, 120, 150, 200, 250, 300, 350, 400, 120, 220, 320, 800, 1300))]
     threads = [1, 2, 3, 8, 16]
     routes = ["import", "insert", "fs"]
     norders = 1 if tier == "quick" else 2
